@@ -121,6 +121,42 @@ def run_term(part, term, boards, ctx_extra):
     part.add("terms", term.name)
 
 
+HISTORY_BOARDS = [(1, 2), (2, 1), (1, 4), (2, 2), (4, 1), (2, 3), (3, 2), (1, 6), (6, 1), (1, 1), (3, 3)]
+
+
+def run_histories(part, term, depth):
+    """E2 flavour: ONE combinator instance is used for a sequence of boards (every ordered pair / triple of boards from a
+    menu in which several boards share their area); each round trip must behave exactly as on a fresh instance."""
+    import itertools
+
+    kh = keyhint(term) + "{shared-instance}"
+    first_values = {}
+    for b in HISTORY_BOARDS:
+        ctx = {"height": b[0], "width": b[1], "seq_cap": 6, "all_orders_upto": 0, "tupl_cap": 4}
+        vals = list(itertools.islice(problems_of(term, ctx), 0, 3))
+        first_values[b] = (ctx, vals)
+    for seq in itertools.permutations(HISTORY_BOARDS, depth):
+        comb = term.build()  # one instance for the whole history
+        for b in seq[:-1]:
+            ctx, vals = first_values[b]
+            for v, sure in vals[:1]:
+                env = S.ps().CombinatorEnv(height=ctx["height"], width=ctx["width"])
+                try:
+                    r = comb.serialize(env, [v], 0)
+                    if r is not None:
+                        comb.deserialize(env, r[1], 0)
+                except Exception:
+                    pass  # judged when this board is the last of a history
+        ctx, vals = first_values[seq[-1]]
+        part.count("histories")
+        for v, sure in vals:
+            before = len(part.violations)
+            roundtrip(part, term, comb, v, ctx, sure, kh)
+            if len(part.violations) > before:
+                part.violations[-1].case["history"] = [list(b) for b in seq]
+    part.add("terms", "history:" + term.name)
+
+
 def run_runs(part, space_term, number_term, order):
     """Run-length family on 1xN / Nx1 boards: blank runs of every length 1..2*max+1, flanked or not by numbers."""
     alts = [space_term, number_term] if order == 0 else [number_term, space_term]
@@ -197,6 +233,12 @@ def universe(tier):
     return terms
 
 
+def history_terms():
+    hexdot = S.TOneOf(S.TDict([-1], ["."]), S.THexInt())
+    return [S.TRooms(), S.TRooms(skip_on_error=True), S.TValuedRooms(hexdot), S.TGrid(S.TOneOf(S.TSpaces(0, "g"), S.THexInt())), S.TGrid(S.TMultiDigit(3, 3)),
+            S.TGrid(S.TIntSpaces(-1, 4, 2)), S.TTupl(S.TRooms(), S.TGrid(hexdot)), S.TTupl(S.TGrid(S.TMultiDigit(2, 5)), S.TValuedRooms(S.THexInt()))]
+
+
 def boards_for(term, tier):
     roomy = "Rooms" in term.name
     if roomy:
@@ -226,6 +268,9 @@ def worker(shard, part):
                                                      "tupl_cap": 300 if tier == "quick" else 1200})
         if lo % 200 == 0:
             part.sample({"term": _TERMS[lo].name})
+    elif what == "history":
+        _, idx, depth = shard
+        run_histories(part, history_terms()[idx], depth)
     else:
         _, si, ni, order = shard
         spaces = [S.TSpaces(0, "g"), S.TSpaces(0, "z"), S.TSpaces(0, "a"), S.TSpaces(-3, "1")]
@@ -251,6 +296,8 @@ def main(tier, seed, only=None):
         for ni in range(2):
             for order in (0, 1):
                 shards.append(("runs", si, ni, order))
+    for idx in range(len(history_terms())):
+        shards.append(("history", idx, 2 if tier == "quick" else 3))
     if only:
         shards = [s for s in shards if s[0] == only]
     run = harness.Run(
@@ -260,7 +307,8 @@ def main(tier, seed, only=None):
         "dimensions) over all of them, Tupl pairs/triples with FixStr separators, nested Seq/Tupl/Grid to depth 3, Rooms, ValuedRooms over 5 "
         "value combinators, Tupl with Rooms.  Values: all sequences over each alphabet while <= cap else a boundary family; boundary values "
         "0,15,16,255,256,4095; blank runs of every length 1..2*max+1 on 1xN / Nx1 boards; every partition of every board with <= %d cells into "
-        "connected rooms in every order of rooms and cells (<= %d cells) or canonical/reversed/rotated.  A term is admitted iff OneOf alternatives "
+        "connected rooms in every order of rooms and cells (<= %d cells) or canonical/reversed/rotated.  Histories: for 8 board-sized terms (Rooms, ValuedRooms, Grid, Tupl of them) ONE combinator instance serves every ordered pair (thorough: triple) of "
+        "boards from an 11-board menu with repeated areas, and the last round trip is judged.  A term is admitted iff OneOf alternatives "
         "have disjoint FIRST sets and no greedy decimal reader is followed by a digit.  Oracle: decode(encode(v)) == v (rooms up to canonical "
         "order) and consumed == len(text)." % (6 if tier == "quick" else 9, 4 if tier == "quick" else 5),
     )
